@@ -417,6 +417,8 @@ class Src:
         self.cell = cell
         self.scale = np.maximum(np.abs(lp), np.abs(lq))
         self.mesh = m
+        # the integer-corner input class (exact integer arithmetic for faces, integer corners handed over) only while the source still keeps integer arrays
+        self.geo_int = self.geo_int and bool(np.issubdtype(m.region.pmin.dtype, np.integer) and np.issubdtype(m.region.pmax.dtype, np.integer))
 
     def data_is(self, array, valid):
         f = self.field
